@@ -96,14 +96,15 @@ fn on_probe(point: &'static str) {
 
 // ---------------------------------------------------------------- frames (independent of repe's framing)
 
-fn mk_frame(id: u64, notify: u8, tag: u64) -> Vec<u8> {
+fn mk_frame(id: u64, notify: u8, tag: u64) -> Vec<u8> { mk_frame_ec(id, notify, tag, 0) }
+fn mk_frame_ec(id: u64, notify: u8, tag: u64, ec: u32) -> Vec<u8> {
     let query = b"/r"; let body = format!("{{\"tag\":{tag}}}").into_bytes();
     let mut f = Vec::with_capacity(48 + query.len() + body.len());
     f.extend_from_slice(&((48 + query.len() + body.len()) as u64).to_le_bytes());
     f.extend_from_slice(&0x1507u16.to_le_bytes()); f.push(1); f.push(notify); f.extend_from_slice(&0u32.to_le_bytes());
     f.extend_from_slice(&id.to_le_bytes());
     f.extend_from_slice(&(query.len() as u64).to_le_bytes()); f.extend_from_slice(&(body.len() as u64).to_le_bytes());
-    f.extend_from_slice(&1u16.to_le_bytes()); f.extend_from_slice(&2u16.to_le_bytes()); f.extend_from_slice(&0u32.to_le_bytes());
+    f.extend_from_slice(&1u16.to_le_bytes()); f.extend_from_slice(&2u16.to_le_bytes()); f.extend_from_slice(&ec.to_le_bytes());
     f.extend_from_slice(query); f.extend_from_slice(&body);
     f
 }
@@ -155,7 +156,7 @@ impl Conn {
 }
 
 /// the scripted server's knowledge: which request (by caller tag) carries which id
-struct Server { conn: Conn, seen: HashMap<u64, u64>, ids: Vec<u64>, notifies: Vec<u64>, err: Option<String> }
+struct Server { conn: Conn, seen: HashMap<u64, u64>, ids: Vec<u64>, notifies: Vec<u64>, err: Option<String>, answered: std::collections::HashSet<u64>, gone: std::collections::HashSet<u64> }
 impl Server {
     fn read_one(&mut self) -> bool {
         match self.conn.read().and_then(|f| parse_req(&f)) {
@@ -202,7 +203,7 @@ fn setup(kind: &str) -> Result<Setup, String> {
             let (s, _) = l.accept().map_err(|e| e.to_string())?;
             s.set_nodelay(true).ok();
             s.set_read_timeout(Some(WAIT)).ok();
-            Ok(Setup { cl, srv: Server { conn: Conn::Tcp(s), seen: HashMap::new(), ids: vec![], notifies: vec![], err: None }, sub: None })
+            Ok(Setup { cl, srv: Server { conn: Conn::Tcp(s), seen: HashMap::new(), ids: vec![], notifies: vec![], err: None, answered: Default::default(), gone: Default::default() }, sub: None })
         }
         _ => {
             let (cl, ws) = rt().block_on(async {
@@ -219,7 +220,7 @@ fn setup(kind: &str) -> Result<Setup, String> {
                 Ok::<_, String>((cl, ws))
             })?;
             let sub = if NO_SUB.load(std::sync::atomic::Ordering::SeqCst) { None } else { Some(cl.subscribe_notifies().map_err(|_| "already subscribed".to_string())?) };
-            Ok(Setup { cl: Cl::Ws(cl), srv: Server { conn: Conn::Ws(Box::new(ws)), seen: HashMap::new(), ids: vec![], notifies: vec![], err: None }, sub })
+            Ok(Setup { cl: Cl::Ws(cl), srv: Server { conn: Conn::Ws(Box::new(ws)), seen: HashMap::new(), ids: vec![], notifies: vec![], err: None, answered: Default::default(), gone: Default::default() }, sub })
         }
     }
 }
@@ -273,7 +274,9 @@ fn spawn_forward(cl: &Cl, c: u64, id: u64, notify: bool, tmo: Duration, tx: mpsc
 // ---------------------------------------------------------------- schedules
 
 #[derive(Clone, Debug)]
-enum Step { R(u64), W(u64), T(u64), C(u64), D, F(u64, u64), Fn(u64), Reply(u64, u64), Unknown(u64, u64), Notify(u64, u64), NotifyRaw(u64, u64) }
+enum Step { R(u64), W(u64), T(u64), C(u64), D, F(u64, u64), Fn(u64), Reply(u64, u64), Unknown(u64, u64), Notify(u64, u64), NotifyRaw(u64, u64),
+            /// harness-only (not model steps): start / finish a call whose body fails to serialize
+            BurnStart, BurnEnd }
 
 fn hx(s: &str) -> u64 { u64::from_str_radix(s, 16).expect("hex") }
 fn parse_step(s: &str) -> Step {
@@ -283,6 +286,7 @@ fn parse_step(s: &str) -> Step {
         "F" => Step::F(hx(t[1]), hx(t[2])), "Fn" => Step::Fn(hx(t[1])),
         "r" => Step::Reply(hx(t[1]), hx(t[2])), "u" => Step::Unknown(hx(t[1]), hx(t[2])),
         "n" => Step::Notify(hx(t[1]), hx(t[2])), "N" => Step::NotifyRaw(hx(t[1]), hx(t[2])),
+        "Z" => Step::BurnStart, "z" => Step::BurnEnd,
         _ => panic!("bad step"),
     }
 }
@@ -292,17 +296,52 @@ fn show_step(s: &Step) -> String {
         Step::F(c, i) => format!("F:{c:x}:{i:x}"), Step::Fn(c) => format!("Fn:{c:x}"),
         Step::Reply(k, v) => format!("r:{k:x}:{v:x}"), Step::Unknown(i, v) => format!("u:{i:x}:{v:x}"),
         Step::Notify(k, v) => format!("n:{k:x}:{v:x}"), Step::NotifyRaw(i, v) => format!("N:{i:x}:{v:x}"),
+        Step::BurnStart => "Z".into(), Step::BurnEnd => "z".into(),
+    }
+}
+
+/// A request body whose serialization blocks until released and then fails: the call has drawn
+/// whatever it draws before serializing (its request id, on the blocking client) and returns an
+/// error without ever reaching the wire.
+#[derive(Clone, Default)]
+struct BadBody { st: Arc<(Mutex<(bool, bool)>, std::sync::Condvar)> }
+impl serde::Serialize for BadBody {
+    fn serialize<S: serde::Serializer>(&self, _s: S) -> Result<S::Ok, S::Error> {
+        let (m, cv) = &*self.st;
+        let mut g = m.lock().unwrap();
+        g.0 = true; cv.notify_all();
+        let t0 = Instant::now();
+        while !g.1 && t0.elapsed() < WAIT { g = cv.wait_timeout(g, Duration::from_millis(50)).unwrap().0; }
+        Err(serde::ser::Error::custom("scripted serialization failure"))
+    }
+}
+impl BadBody {
+    fn wait_entered(&self) -> bool { let (m, cv) = &*self.st; let mut g = m.lock().unwrap(); let t0 = Instant::now(); while !g.0 && t0.elapsed() < WAIT { g = cv.wait_timeout(g, Duration::from_millis(50)).unwrap().0; } g.0 }
+    fn release(&self) { let (m, cv) = &*self.st; m.lock().unwrap().1 = true; cv.notify_all(); }
+}
+fn spawn_burner(cl: &Cl, body: BadBody, done: mpsc::Sender<bool>) {
+    match cl.clone() {
+        Cl::Tcp(client) => { std::thread::spawn(move || { let _ = done.send(client.call_json("/burn", &body).is_err()); }); }
+        Cl::Async(client) => { rt().spawn(async move { let _ = done.send(client.call_json("/burn", &body).await.is_err()); }); }
+        Cl::Ws(client) => { rt().spawn(async move { let _ = done.send(client.call_json("/burn", &body).await.is_err()); }); }
     }
 }
 const UNKNOWN_K: u64 = 4095;
 fn tag_of(k: u64, v: u64) -> u64 { k + 4096 * v }
 
 /// the frame of a server step (None: not a server step, or the request it names was never read)
+/// error code of a frame nobody is waiting for (an unknown id; a second answer; an answer that comes
+/// after its call timed out or was cancelled): such a frame is dropped whatever code it carries
+fn stray_ec(v: u64) -> u32 { [0u32, 7, 9, 4096][(v % 4) as usize] }
 fn server_frame(srv: &mut Server, st: &Step) -> Option<Vec<u8>> {
     match st {
-        Step::Reply(k, v) => srv.need(*k).map(|id| mk_frame(id, 0, tag_of(*k, *v))),
+        Step::T(c) | Step::C(c) => { srv.gone.insert(*c); None }
+        Step::Reply(k, v) => {
+            let stray = !srv.answered.insert(*k) || srv.gone.contains(k);
+            srv.need(*k).map(|id| mk_frame_ec(id, 0, tag_of(*k, *v), if stray { stray_ec(*v) } else { 0 }))
+        }
         Step::Notify(k, v) => srv.need(*k).map(|id| mk_frame(id, 1, tag_of(*k, *v))),
-        Step::Unknown(id, v) => Some(mk_frame(*id, 0, tag_of(UNKNOWN_K, *v))),
+        Step::Unknown(id, v) => Some(mk_frame_ec(*id, 0, tag_of(UNKNOWN_K, *v), stray_ec(*v))),
         Step::NotifyRaw(id, v) => Some(mk_frame(*id, 1, tag_of(UNKNOWN_K, *v))),
         _ => None,
     }
@@ -326,12 +365,26 @@ fn probe_run(kind: &str, cl: &Cl, srv: &mut Server, gate: &Gate, sched: &[Step],
     let tmo_of = |c: u64| if sched.iter().any(|s| matches!(s, Step::T(k) if *k == c)) { SHORT } else { LONG };
     let mut sent: u64 = 0; let mut nb: u64 = 0; let mut at_b = false; let mut nsent = 0u64;
     let mut handles: HashMap<u64, Handle> = HashMap::new();
+    let mut burner: Option<(BadBody, mpsc::Receiver<bool>)> = None;
     let mut sentinel = || { nsent += 1; mk_frame((1u64 << 63) + nsent, 0, tag_of(UNKNOWN_K, 0)) };
     macro_rules! need { ($e:expr, $what:expr) => { if !$e { gate.problem($what.to_string()); return; } } }
     srv.send(sentinel()); sent += 1;
     need!(gate.wait_any(&[(a, sent)], WAIT).is_some(), "reader-not-at-first-frame");
     for (i, st) in sched.iter().enumerate() {
         match st {
+            Step::BurnStart => {
+                let b = BadBody::default();
+                let (dtx, drx) = mpsc::channel();
+                spawn_burner(cl, b.clone(), dtx);
+                need!(b.wait_entered(), "burner-never-serialized");
+                burner = Some((b, drx));
+            }
+            Step::BurnEnd => {
+                if let Some((b, drx)) = burner.take() {
+                    b.release();
+                    need!(matches!(drx.recv_timeout(WAIT), Ok(true)), "burner-did-not-fail");
+                }
+            }
             Step::R(c) => {
                 handles.insert(*c, spawn_caller(cl, *c, tmo_of(*c), tx.clone(), None));
                 // registered (parked after the insert) or refused (the call has already returned)
@@ -362,6 +415,7 @@ fn probe_run(kind: &str, cl: &Cl, srv: &mut Server, gate: &Gate, sched: &[Step],
                 if at_b { gate.release(b); need!(gate.wait_any(&[(a, sent)], WAIT).is_some(), "no-frame-after-deliver"); at_b = false; }
             }
             Step::T(c) => {
+                srv.gone.insert(*c);
                 if kind == "tcp" {
                     need!(gate.wait_any(&[((Actor::Caller(*c), "timeout"), 1)], WAIT).is_some(), format!("no-timeout:{c}"));
                     gate.release((Actor::Caller(*c), "timeout"));
@@ -369,6 +423,7 @@ fn probe_run(kind: &str, cl: &Cl, srv: &mut Server, gate: &Gate, sched: &[Step],
                 need!(pump(rx, outs, |o| o.contains_key(c), WAIT), format!("no-outcome-after-timeout:{c}"));
             }
             Step::C(c) => {
+                srv.gone.insert(*c);
                 if let Some(Handle::Task(ah)) = handles.get(c) { ah.abort(); }
                 need!(pump(rx, outs, |o| o.contains_key(c), WAIT), format!("no-outcome-after-cancel:{c}"));
             }
@@ -560,7 +615,7 @@ fn probe_script(rng: &mut Rng, kind: &str, n: u64) -> Vec<Step> {
             Step::D => flush(&mut matched, &mut fin),
             Step::Reply(k, _) => { flush(&mut matched, &mut fin); let k = *k as usize; nrep[k] += 1; if pending[k] { pending[k] = false; matched = Some(k); } }
             Step::Unknown(..) | Step::Notify(..) | Step::NotifyRaw(..) => { flush(&mut matched, &mut fin); v += 1; }
-            Step::F(..) | Step::Fn(..) => {}
+            Step::F(..) | Step::Fn(..) | Step::BurnStart | Step::BurnEnd => {}
         }
         s.push(st);
     }
@@ -714,7 +769,7 @@ fn gen_cases(seed: u64, thorough: bool) -> Vec<String> {
     // batch_json of 1..40 requests answered in shuffled order
     let reps = if thorough { 5 } else { 1 };
     for kind in kinds {
-        for n in 1..=40u64 {
+        for n in (1..=40u64).chain([63u64, 64, 65, 66, 128, 129, 200]) {
             for _ in 0..reps {
                 let window = if kind == "tcp" { batch_cap() } else { n };
                 cases.push(render(kind, "batch", n, &batch_script(&mut rng, n, window)));
@@ -728,6 +783,15 @@ fn gen_cases(seed: u64, thorough: bool) -> Vec<String> {
             let n = if i % 7 == 0 { 4 } else { rng.range(2, 3) };
             cases.push(render(kind, "probe", n, &probe_script(&mut rng, kind, n)));
         }
+    }
+    // a call whose body fails to serialize (Z ... z: harness-only steps, not model steps) while
+    // other calls register, write and are answered: whatever that call drew is simply lost; the ids
+    // of the calls that do reach the wire stay distinct and every call gets its own response
+    for kind in kinds {
+        cases.push(format!("k={kind} mode=probe n=2 sched=Z;R:0;W:0;z;R:1;W:1;r:0:0;D;r:1:0;D"));
+        cases.push(format!("k={kind} mode=probe n=3 sched=R:0;W:0;Z;R:1;W:1;z;R:2;W:2;r:1:0;D;r:0:0;D;r:2:0;D"));
+        cases.push(format!("k={kind} mode=probe n=2 sched=Z;z;R:0;W:0;R:1;W:1;r:1:0;D;r:0:0;D"));
+        cases.push(format!("k={kind} mode=probe n=3 sched=Z;R:0;W:0;R:1;W:1;z;R:2;W:2;r:2:0;D;r:0:0;D;r:1:0;D"));
     }
     // forward_message with caller-supplied ids while calls are in flight (AsyncClient only)
     let nfwd = if thorough { 1500 } else { 150 };
